@@ -21,15 +21,16 @@ PROPS["C07"] = {
 }
 
 PROPS["C05"] = {
-    "level_text": "Proof by contract of the duplicate-request classification predicate on a real session object: a request is treated as a retransmission iff sequence number and digest of the raw fragment equal those of the last valid request, and the stored response is carried unchanged; stored-request record and header constructors.",
-    "level_note": "Classification predicate proved; the replay path (that a repeat never reaches the execution handlers and that the echoed body bytes are those of the stored response) is inside async fns and is NOT verified. xxh64 collision-freedom assumed.",
-    "not_covered": ["process_request_from_idle / wait_for_sol_confirm / repeat_solicited / repeat_unsolicited (async): that a repeat is answered from the stored bytes and never executed"],
-    "assumptions": ["xxh64 behind a logged contract stub (any u64); collisions of xxh64 are outside the model"],
+    "level_text": "Proof by contract of the duplicate-request classification predicate on a real session object (a request is treated as a retransmission iff sequence number and digest of the raw fragment equal those of the last valid request, and the stored response is carried unchanged), and of the two functions that put a solicited fragment on the wire: write_solicited and repeat_solicited (real async code, transport writer by contract) transmit exactly the response's own header octets followed by the object octets already in the solicited buffer up to the stored size - an echo re-serialises the STORED header, never whatever header a later reply left in the shared buffer, and recomputes no indication bits; the value kept for later echoes is the response as transmitted.",
+    "level_note": "Classification predicate, write_solicited and repeat_solicited proved (the latter two with TransportWriter::write replaced by a logged contract stub through a woven early return; Writer::write itself is proved under C08). NOT verified: that a repeat never reaches the execution handlers (process_request_from_idle does not finish in CBMC), the confirm-wait and unsolicited-retry loops that call the echo (harnesses for sol_confirm_wait / perform_unsolicited_response_series exist under wip/ but hit the solver limit), that the body octets in the shared buffer are still those of the stored response when the echo happens (a history property of the buffer). xxh64 collision-freedom assumed.",
+    "not_covered": ["process_request_from_idle / wait_for_sol_confirm / perform_unsolicited_response_series (async): that a repeat is answered through repeat_solicited / repeat_unsolicited and never executed", "repeat_unsolicited (same shape as repeat_solicited, not under contract)"],
+    "assumptions": ["xxh64 behind a logged contract stub (any u64); collisions of xxh64 are outside the model",
+                    "TransportWriter::write replaced under cfg(kani) by a logged contract stub (weave/inject/session_io.json): dropped text = its application-level decode logging and the delegation to transport::real::writer::Writer::write (proved under C08)"],
 }
 PROPS["C13"] = {
     "level_text": "Proof by contract that the response IIN is exactly the stated function of session state, event-buffer info and application answer (get_response_iin on a real session), that the restart indication survives the per-connection reset and is cleared only by the IIN write, plus the event-buffer contracts (C03) that define class/overflow truth.",
-    "level_note": "That the IIN is recomputed for every transmitted response and the broadcast bit cleared on confirm is async control flow: not covered. DatabaseHandle::get_events_info behind a contract stub (Mutex).",
-    "not_covered": ["write_solicited/write_unsolicited (async): IIN recomputed per transmitted fragment", "confirm-mandatory broadcast bit cleared on confirm (async)"],
+    "level_note": "write_solicited (real async code, transport writer by contract) is proved to OR a FRESH get_response_iin, evaluated exactly once, into every solicited response it transmits and to force CON for a pending confirm-mandatory broadcast; the same for write_unsolicited and the clearing of the broadcast bit on confirm are async control flow: not covered. DatabaseHandle::get_events_info behind a contract stub (Mutex).",
+    "not_covered": ["write_unsolicited (async): IIN recomputed per transmitted unsolicited fragment", "confirm-mandatory broadcast bit cleared on confirm (async)"],
 }
 
 PROPS["C18"] = {
